@@ -6,7 +6,7 @@ cp -r /repo/src $S/src
 (cd $S && patch -s -p1 < /verif/seeded/$seed/patch.diff) || { echo "patch failed"; rm -rf $S; exit 9; }
 for pid in "$@"; do
   echo "--- seed $seed vs check $pid"
-  (cd /verif && PYVC_REPO_SRC=$S/src ./check $pid 2>&1 | grep -E "VIOLATION|UNDECIDED|CHECKER-ERROR|KNOWN|failed obligation|obligations discharged" | cut -c1-260)
+  (cd /verif && PYVC_REPO_SRC=$S/src PYVC_EVIDENCE_DIR=$S/evidence ./check $pid 2>&1 | grep -E "VIOLATION|UNDECIDED|CHECKER-ERROR|KNOWN|failed obligation|obligations discharged" | cut -c1-260)
   echo "exit ${PIPESTATUS[0]}"
 done
 rm -rf $S
